@@ -3,6 +3,8 @@ SPECIFICATION Spec
 CONSTANTS
   SameFs = FALSE
   LinkBackup = TRUE
+  ClockSteps = TRUE
+  StaleCheck = FALSE
 INVARIANTS
   TypeOK
   RoundTrip
